@@ -527,6 +527,8 @@ def build_coverage(results, agg, sim_wall, det_info, conf, known_hits, fixed, re
                        'completed_fraction': round(agg['ops_completed'] / max(1, agg['ops_total']), 3)},
         'families': dict(agg['families']),
         'faults_fired': dict(sorted(agg['faults'].items())),
+        'environment_faults_fired': {k: v for k, v in sorted(agg['probes'].items())
+                                     if k.startswith(('env_entry_damaged', 'enospc_hit', 'source_modified_while'))},
         'probes': dict(sorted(agg['probes'].items())),
         'distinct_abstract_states': len(agg['states']),
         'abstract_state_rule': 'tuple of (entry state of each of 3 sources: absent/complete|broken x fresh|stale; '
